@@ -19,6 +19,7 @@ import (
 	"fmt"
 	"go/token"
 	"go/types"
+	"os"
 	"sort"
 
 	"golang.org/x/tools/go/ssa"
@@ -187,6 +188,9 @@ func (p *Program) ViewKeeping(fn *ssa.Function, keep func(callee *ssa.Function) 
 		p.views = map[*ssa.Function]*viewInfo{}
 	}
 	p.views[res.Fn] = &viewInfo{res}
+	if d := os.Getenv("HK_DUMPVIEW"); d != "" && d == fn.Name() {
+		res.Fn.WriteTo(stdoutWriter{})
+	}
 	return res.Fn
 }
 
